@@ -172,7 +172,13 @@ func typeInv(t types.Type, v *Term, alloc *Term) *Term {
 		_ = u
 		l := Sel(v, "len")
 		c := Sel(v, "cap")
-		return And(Le(IntLit(0), l), Le(l, c), Le(c, BigLit("9223372036854775807")), Implies(Sel(v, "isnil"), Eq(c, IntLit(0))))
+		base := And(Le(IntLit(0), l), Le(l, c), Le(c, BigLit("9223372036854775807")), Implies(Sel(v, "isnil"), Eq(c, IntLit(0))))
+		if isRefType(u.Elem()) && alloc != nil {
+			i := BoundVar("ti", SInt)
+			el := Select(Sel(v, "elems"), i)
+			base = And(base, Forall([]*Term{i}, Implies(And(Le(IntLit(0), i), Lt(i, l)), And(Le(IntLit(0), el), Lt(el, alloc), refTyped(u.Elem(), el))), []*Term{el}))
+		}
+		return base
 	case *types.Basic:
 		if u.Info()&types.IsString != 0 {
 			return And(Ge(strLen(v), IntLit(0)), Le(strLen(v), BigLit("9223372036854775807")))
@@ -233,8 +239,8 @@ func strLit(s string) *Term {
 	return t
 }
 
-func strLen(s *Term) *Term { return App("str.len", SInt, s) }
-func strAt(s, i *Term) *Term { return App("str.at", SInt, s, i) }
+func strLen(s *Term) *Term { return App("sx.len", SInt, s) }
+func strAt(s, i *Term) *Term { return App("sx.at", SInt, s, i) }
 func strConcat(a, b *Term) *Term {
 	if a == strLit("") {
 		return b
@@ -242,9 +248,9 @@ func strConcat(a, b *Term) *Term {
 	if b == strLit("") {
 		return a
 	}
-	return App("str.cat", SStr, a, b)
+	return App("sx.cat", SStr, a, b)
 }
-func strSub(s, lo, hi *Term) *Term { return App("str.sub", SStr, s, lo, hi) }
+func strSub(s, lo, hi *Term) *Term { return App("sx.sub", SStr, s, lo, hi) }
 
 // strAxioms: background facts about string literals and string functions.
 func strAxioms(used map[*Decl]bool) []*Term {
@@ -273,20 +279,20 @@ func strAxioms(used map[*Decl]bool) []*Term {
 	out = append(out, Forall([]*Term{x}, Ge(strLen(x), IntLit(0)), []*Term{strLen(x)}))
 	out = append(out, Forall([]*Term{x}, Implies(Eq(strLen(x), IntLit(0)), Eq(x, strLit(""))), []*Term{strLen(x)}))
 	out = append(out, Eq(strLen(strLit("")), IntLit(0)))
-	if d, ok := declTab["str.cat"]; ok && used[d] {
-		cat := App("str.cat", SStr, x, y)
+	if d, ok := declTab["sx.cat"]; ok && used[d] {
+		cat := App("sx.cat", SStr, x, y)
 		out = append(out, Forall([]*Term{x, y}, Eq(strLen(cat), Add(strLen(x), strLen(y))), []*Term{cat}))
 		out = append(out, Forall([]*Term{x, y, i}, Eq(strAt(cat, i), Ite(Lt(i, strLen(x)), strAt(x, i), strAt(y, Sub(i, strLen(x))))), []*Term{strAt(cat, i)}))
-		out = append(out, Forall([]*Term{x}, Eq(App("str.cat", SStr, x, strLit("")), x), []*Term{App("str.cat", SStr, x, strLit(""))}))
-		out = append(out, Forall([]*Term{x}, Eq(App("str.cat", SStr, strLit(""), x), x), []*Term{App("str.cat", SStr, strLit(""), x)}))
+		out = append(out, Forall([]*Term{x}, Eq(App("sx.cat", SStr, x, strLit("")), x), []*Term{App("sx.cat", SStr, x, strLit(""))}))
+		out = append(out, Forall([]*Term{x}, Eq(App("sx.cat", SStr, strLit(""), x), x), []*Term{App("sx.cat", SStr, strLit(""), x)}))
 	}
-	if d, ok := declTab["str.sub"]; ok && used[d] {
-		sub := App("str.sub", SStr, x, i, j)
+	if d, ok := declTab["sx.sub"]; ok && used[d] {
+		sub := App("sx.sub", SStr, x, i, j)
 		ok := And(Le(IntLit(0), i), Le(i, j), Le(j, strLen(x)))
 		out = append(out, Forall([]*Term{x, i, j}, Implies(ok, Eq(strLen(sub), Sub(j, i))), []*Term{sub}))
 		k := BoundVar("sk", SInt)
 		out = append(out, Forall([]*Term{x, i, j, k}, Implies(And(ok, Le(IntLit(0), k), Lt(k, Sub(j, i))), Eq(strAt(sub, k), strAt(x, Add(i, k)))), []*Term{strAt(sub, k)}))
-		out = append(out, Forall([]*Term{x}, Eq(App("str.sub", SStr, x, IntLit(0), strLen(x)), x), []*Term{App("str.sub", SStr, x, IntLit(0), strLen(x))}))
+		out = append(out, Forall([]*Term{x}, Eq(App("sx.sub", SStr, x, IntLit(0), strLen(x)), x), []*Term{App("sx.sub", SStr, x, IntLit(0), strLen(x))}))
 	}
 	for _, nm := range []string{"std.strings.Index", "std.strings.LastIndex"} {
 		d, ok := declTab[nm]
@@ -294,7 +300,7 @@ func strAxioms(used map[*Decl]bool) []*Term {
 			continue
 		}
 		idx := App(nm, SInt, x, y)
-		occ := func(a, b, c *Term) *Term { return App("str.occursAt", SBool, a, b, c) }
+		occ := func(a, b, c *Term) *Term { return App("sx.occursAt", SBool, a, b, c) }
 		out = append(out, Forall([]*Term{x, y}, And(Ge(idx, IntLit(-1)), Implies(Ge(idx, IntLit(0)), And(Le(idx, Sub(strLen(x), strLen(y))), occ(x, y, idx)))), []*Term{idx}))
 		if nm == "std.strings.LastIndex" {
 			out = append(out, Forall([]*Term{x, y, j}, Implies(And(occ(x, y, j), Ge(j, IntLit(0))), And(Le(j, idx), Ge(idx, IntLit(0)))), []*Term{occ(x, y, j), idx}))
@@ -302,11 +308,11 @@ func strAxioms(used map[*Decl]bool) []*Term {
 			out = append(out, Forall([]*Term{x, y, j}, Implies(And(occ(x, y, j), Ge(j, IntLit(0))), And(Ge(j, idx), Ge(idx, IntLit(0)))), []*Term{occ(x, y, j), idx}))
 		}
 	}
-	if d, ok := declTab["str.prefixof"]; ok && used[d] {
-		pf := App("str.prefixof", SBool, x, y)
+	if d, ok := declTab["sx.prefixof"]; ok && used[d] {
+		pf := App("sx.prefixof", SBool, x, y)
 		out = append(out, Forall([]*Term{x, y}, Implies(pf, Le(strLen(x), strLen(y))), []*Term{pf}))
-		out = append(out, Forall([]*Term{x}, App("str.prefixof", SBool, x, x), []*Term{App("str.prefixof", SBool, x, x)}))
-		out = append(out, Forall([]*Term{y}, App("str.prefixof", SBool, strLit(""), y), []*Term{App("str.prefixof", SBool, strLit(""), y)}))
+		out = append(out, Forall([]*Term{x}, App("sx.prefixof", SBool, x, x), []*Term{App("sx.prefixof", SBool, x, x)}))
+		out = append(out, Forall([]*Term{y}, App("sx.prefixof", SBool, strLit(""), y), []*Term{App("sx.prefixof", SBool, strLit(""), y)}))
 	}
 	return out
 }
